@@ -143,6 +143,26 @@ def gen_case(world, tier, prop):
             'id': i}
 
   n = rng.randint(1, 12 if big else 9)
+  over_budget = rng.random() < 0.03
+  if over_budget:
+    # a chain just beyond the recursion budget, next to a sibling that is built
+    # first: fdl.build must fail as a whole (RecursionError), not half-redo
+    sib = new_id()
+    defs.append({'node': {'btype': 'Config', 'fn': 'n0', 'args': [],
+                          'kwargs': {'uid': sib, 'x': token()}}, 'id': sib})
+    prev = None
+    for _ in range(rng.randint(210, 270)):
+      i = new_id()
+      defs.append({'node': {'btype': 'Config', 'fn': 'n0', 'args': [],
+                            'kwargs': {'uid': i, 'x': ({'share': prev} if prev is not None else token())}},
+                   'id': i})
+      prev = i
+    top = new_id()
+    defs.append({'node': {'btype': 'Config', 'fn': 'n0', 'args': [],
+                          'kwargs': {'uid': top, 'x': {'share': sib}, 'y': {'share': prev}}},
+                 'id': top})
+    return {'defs': defs, 'root': {'share': top}, 'shape': 'ValueError', 'fmt': None,
+            'nested': False, 'only_uid': None, 'over_budget': True}
   if rng.random() < 0.08:
     # deep chain
     depth = rng.randint(20, 60 if big else 35)
@@ -413,6 +433,14 @@ def run(case):
     del rec.log[:]
     try:
       out = fdl.build(root)
+    except RecursionError:
+      if case.get('over_budget'):
+        # beyond the recursion budget the property does not ask for a result;
+        # what it forbids is a build that RETURNS after redoing invocations
+        res['discarded'] = 'beyond-recursion-budget'
+        res['probes']['over_budget_chain_refused'] = 1
+        return res
+      raise
     except Exception as e:  # pylint: disable=broad-except
       viols.append(V('C02', 'fault-free-build-raised',
                      f'build #{b} raised {type(e).__name__}: {C.norm_text(str(e))[:300]}'))
